@@ -206,7 +206,7 @@ def long_family(ctx):
     """Deterministic long series against an 80-digit decimal-free exact rational banded solve."""
     sub = "float_long"
     m = _mod()
-    for n in ((50, 100) if not ctx.thorough() else (50, 100, 400)):
+    for n in ((50, 100, 220) if not ctx.thorough() else (50, 100, 220, 400)):
         t = np.arange(n)
         y = np.round(3000 * np.sin(t / 5.0) + 500 * ((t * 37) % 11 - 5)).astype(np.int64)
         layouts = {
@@ -216,6 +216,13 @@ def long_family(ctx):
             "lead_trail20": ((t >= 20) & (t < n - 20)).astype(int),
             "two": ((t == n // 3) | (t == n // 3 + 7)).astype(int),
         }
+        if n >= 100:
+            # very long zero-weight runs at the end / start / in the middle (pivots behind them become tiny but
+            # legitimate numbers: ~ 3*lambda/g^3)
+            k = 20
+            layouts["trail_long"] = (t < k).astype(int)
+            layouts["lead_long"] = (t >= n - k).astype(int)
+            layouts["mid_long"] = ((t < k // 2) | (t >= n - k // 2)).astype(int)
         for lname, w in layouts.items():
             for lamf in ([1e-6, 1.0, 1e4] if n >= 400 else [1e-6, 1e-3, 1.0, 1e4, 1e8]):
                 ze = banded_exact(y.tolist(), F(lamf), w.tolist())
